@@ -60,7 +60,9 @@ pub fn build(draws: &[u16], _tier: Tier) -> Case {
         4 => {
             let t = s.pick(prog.threads.len());
             let at = s.pick(prog.threads[t].len() + 1);
-            prog.threads[t].insert(at, Op::PanicInCellMut { c: 1 });
+            // a panic of the user inside `with_mut`, or loom's own report of a nested access
+            let op = if s.chance(1, 2) { Op::PanicInCellMut { c: 1 } } else { Op::CellNested { c: 1, k: s.pick(3) as u8 } };
+            prog.threads[t].insert(at, op);
         }
         5 => {
             let t = s.pick(prog.threads.len());
@@ -129,7 +131,10 @@ pub fn eval(case: &Case) -> Verdict {
     // where the fault sits
     let mut special = false;
     for (t, i, op) in p.ops() {
-        if matches!(op, Op::PanicIf { .. } | Op::PanicInCellMut { .. } | Op::PanicInAtomMut { .. }) {
+        if matches!(op, Op::CellNested { .. }) {
+            v.label("nested_cell_access");
+        }
+        if matches!(op, Op::PanicIf { .. } | Op::PanicInCellMut { .. } | Op::PanicInAtomMut { .. } | Op::CellNested { .. }) {
             if t > 0 {
                 v.label("fault_in_spawned_thread");
                 special = true;
